@@ -838,6 +838,38 @@ fn apply_fault(data: &mut Vec<u8>, f: &Value) -> bool {
             *data = jhex(f, "junk");
             true
         }
+        "json_index_map" => {
+            // the k-th array of the document becomes an object keyed by position, with a gap in the positions
+            let mut doc: Value = match serde_json::from_slice(data) {
+                Ok(d) => d,
+                Err(_) => return false,
+            };
+            fn walk(v: &mut Value, k: &mut usize, gap: usize) -> bool {
+                match v {
+                    Value::Array(a) => {
+                        if *k == 0 {
+                            let mut m = serde_json::Map::new();
+                            for (i, e) in a.iter().enumerate() {
+                                m.insert(format!("{}", if i >= gap { i + 1 } else { i }), e.clone());
+                            }
+                            *v = Value::Object(m);
+                            return true;
+                        }
+                        *k -= 1;
+                        a.iter_mut().any(|e| walk(e, k, gap))
+                    }
+                    Value::Object(o) => o.values_mut().any(|e| walk(e, k, gap)),
+                    _ => false,
+                }
+            }
+            let mut k = jusize(f, "k");
+            if walk(&mut doc, &mut k, jusize(f, "gap")) {
+                *data = serde_json::to_vec(&doc).unwrap_or_default();
+                true
+            } else {
+                false
+            }
+        }
         "json_value" => {
             // replace the k-th JSON value (the token after a ':' outside strings) by another JSON value
             let k = jusize(f, "k");
@@ -986,14 +1018,16 @@ impl Scenario for ArtefactMedium {
             let big = if tier == Tier::Thorough && rng.chance(1, 50) { 200_000 } else { 3000 };
             let json_kind = kind.starts_with("json_") || kind == "tx_json";
             let token_kind = matches!(kind, "script_asm" | "template_asm" | "template_match" | "xprv_path" | "xpub_path");
-            let f = if json_kind && rng.chance(1, 2) {
+            let f = if json_kind && rng.chance(1, 12) {
+                json!({"f": "json_index_map", "k": rng.below(4), "gap": rng.below(3)})
+            } else if json_kind && rng.chance(1, 2) {
                 json!({"f": "json_value", "k": rng.below(12), "with": *rng.pick(&["1", "-1", "0", "1e400", "18446744073709551616", "4294967296", "null", "true", "[]", "{}", "\"\"", "\"zz\"", "\"00\"", "\"aaaaaaaaaaaaaaaaaaaaaaaaaaaaaaaaaaaaaaaaaaaaaaaaaaaaaaaaaaaaaaa\"", "\"aaaaaaaaaaaaaaaaaaaaaaaaaaaaaaaaaaaaaaaaaaaaaaaaaaaaaaaaaaaaaaaaa\"", "\"0\"", "\"abc\"", "[1,2,3]", "{\"a\":1}", "1.5", "\"\u{e9}\u{20ac}\"", "\"0\u{e9}1\"", "\"\u{20ac}0\"", "\"z\u{e9}0\"", "\"00\u{e9}\"", "\"0\\u00e91\"", "99999999999999999999999999999999999999", "1.0", "-0", "1E2", "1e-2", "0.5e1", "\"\\ud83d\\ude00\"", "\"\\ud800\"", "\"\\u0000\"", "\"\\n\"", "[[]]", "{\"value\":1,\"value\":2}", "18446744073709551615", "-9223372036854775809", "1.8446744073709552e19"])})
             } else if token_kind && rng.chance(1, 2) {
                 json!({"f": "token", "k": rng.below(16), "insert": rng.chance(1, 2), "with": *rng.pick(&["", "", "OP_PUSH", "OP_PUSHDATA1", "OP_PUSHDATA2", "OP_PUSHDATA4", "OP_PUSH 4294967295 00", "OP_PUSHDATA4 4294967296 00", "OP_PUSHDATA4 1073741824 00", "OP_PUSHDATA4 4294967295 00", "OP_PUSHDATA2 65535 00", "OP_PUSHDATA1 255 00", "OP_PUSH 75 00", "OP_PUSH 0 ", "OP_DATA20=", "OP_DATA==5", "OP_DATA=4294967296", "OP_DATA>=18446744073709551616", "OP_DATA<", "OP_DATA=", "OP_DATA=-1", "OP_DATA>", "0x", "zz", "é€", "a€", "OP_é", "17", "-1", "2147483648", "2147483647'", "4294967295", "4294967296", "2147483648h", "99999999999999999999", "'", "h", "/", "m", "m/", "0''", "OP_IF", "OP_ENDIF", "OP_ELSE", "\n", "\r", "\t"])})
             } else if is_text_kind(kind) && rng.chance(1, 10) {
                 match rng.below(3) {
                     0 => json!({"f": "text_case", "alt": rng.below(2), "level": "text"}),
-                    1 => json!({"f": "text_ws", "pos": *rng.pick(&[0u64, 0, 1, 2, 7, 8, 1 << 20]), "ws": *rng.pick(&["20", "0a", "09", "0d0a", "2020", "00", "c2a0", "e28088"]), "level": "text"}),
+                    1 => json!({"f": "text_ws", "pos": *rng.pick(&[0u64, 0, 1, 2, 7, 8, 1 << 20]), "ws": *rng.pick(&["20", "0a", "09", "0d0a", "2020", "00", "c2a0", "e28088", "0b", "0c", "c285", "e280a8", "e38080", "1c"]), "level": "text"}),
                     _ => json!({"f": "lead_ones", "k": *rng.pick(&[1u64, 2, 8, 40]), "level": "text"}),
                 }
             } else if !offs.is_empty() && rng.chance(1, 8) {
